@@ -65,10 +65,14 @@ theorem propfindU_readonly (cfg : Cfg) (rights : Rights) (user : String) (s : St
   unfold propfindU; simp only []; repeat' split
   all_goals rfl
 
+theorem multigetOn_readonly (rights : Rights) (user : String) (cp : Path) (c : Coll) (hs b) :
+    (multigetOn rights user cp c hs b).2 = none := by
+  unfold multigetOn; simp only []; split <;> rfl
+
 theorem multigetU_readonly (cfg : Cfg) (rights : Rights) (user : String) (s : Store) (p hs b) :
     (multigetU cfg rights user s p hs b).2 = none := by
   unfold multigetU; simp only []; repeat' split
-  all_goals rfl
+  all_goals first | rfl | exact multigetOn_readonly ..
 
 /-- a request answered with an error status decides on no update -/
 theorem handleU_error (cfg : Cfg) (rights : Rights) (user : String) (s : Store) (r : Req) :
